@@ -58,10 +58,15 @@ TolOp(pre, post, bn) ==
        RAdd(RMul(RInt(8), TolConv(b, q)), RMul(RMul(RInt(2), U), RAdd(R(b.tas), ROne))))
 
 \* ---- C01 -----------------------------------------------------------------------------------
+\* the risk admin's token-less repay-all on a bank flagged for it (alone, or - the only way the program lets the risk admin
+\* sign for somebody's account - inside a deleverage bracket)
+IxsOf(e) == IF e.ev = "tx" THEN e.a.ixs ELSE <<e.a>>
 IsTokenlessWriteoff(pre, e, bn) ==
-  /\ e.ev = "repay" /\ Ok(e) /\ Has(e.a, "all") /\ e.a.all = TRUE /\ e.a.bank = bn
-  /\ Bit(pre.banks[bn].flags, BANK_TOKENLESS_ALLOWED)
-  /\ Has(e.a, "signer") /\ e.a.signer = pre.groups[pre.banks[bn].group].risk_admin
+  /\ Ok(e) /\ Bit(pre.banks[bn].flags, BANK_TOKENLESS_ALLOWED)
+  /\ \E k \in DOMAIN IxsOf(e) :
+       LET ix == IxsOf(e)[k] IN
+       /\ ix.op = "repay" /\ Has(ix, "all") /\ ix.all = TRUE /\ Has(ix, "bank") /\ ix.bank = bn
+       /\ Has(ix, "signer") /\ ix.signer = pre.groups[pre.banks[bn].group].risk_admin
 IsWipeout(e, post, bn) == e.ev = "bankruptcy" /\ Ok(e) /\ post.banks[bn].cfg.op_state = OP_KILLED
 
 C01(pre, e, post, line) ==
@@ -75,10 +80,9 @@ C01(pre, e, post, line) ==
            (b # q \/ VaultAmt(pre, b) # VaultAmt(post, q)) =>
              \/ IsWipeout(e, post, bn)
              \/ IF IsTokenlessWriteoff(pre, e, bn)
-                THEN LET an == e.a.acct
-                         written == RMul(R(BSub(PosBits(pre.accts[an], bn, "l"), PosBits(post.accts[an], bn, "l"))), R(q.lsv))
+                THEN LET written == RMul(R(BSub(b.tls, q.tls)), R(q.lsv))     \* debt that left the books (at the accrued share value)
                      IN Chk("C01", "tokenless_writeoff_bounded_by_debt", line,
-                            RGe(Slack(post, q), RSub(RSub(Slack(pre, b), RAdd(written, ROne)), TolOp(pre, post, bn))), [bank |-> bn])
+                            RGe(Slack(post, q), RSub(RSub(Slack(pre, b), RAdd(written, RInt(Len(IxsOf(e))))), TolOp(pre, post, bn))), [bank |-> bn])
                 ELSE Chk("C01", "vault_covers_claims", line,
                          RGe(Slack(post, q), RSub(Slack(pre, b), TolOp(pre, post, bn))),
                          [bank |-> bn, ev |-> e.ev, slack_pre_num |-> Slack(pre, b)[1], slack_pre_den |-> Slack(pre, b)[2],
